@@ -2,9 +2,9 @@ package mon
 
 import (
 	"encoding/base64"
-	"sync/atomic"
 	"fmt"
 	"net/url"
+	"sync/atomic"
 	"time"
 
 	"github.com/ory/fosite"
@@ -58,6 +58,10 @@ func c10Transports() []c10Transport {
 		{"post", func(id, s string) world.Auth { return world.Post(id, s) }},
 		{"both", func(id, s string) world.Auth { return world.Auth{Mode: "both", ID: id, Secret: s} }},
 		{"id-only", func(id, s string) world.Auth { return world.Public(id) }},
+		{"basic-names-client+body-secret", func(id, s string) world.Auth {
+			// Authorization: Basic base64(id:) with an empty password, the secret travels in the body without client_id
+			return world.Auth{Mode: "raw", RawHeader: "Basic " + base64.StdEncoding.EncodeToString([]byte(url.QueryEscape(id)+":")), BodySecret: s}
+		}},
 		{"nothing", func(id, s string) world.Auth { return world.Auth{Mode: "none"} }},
 		{"malformed-basic-not-base64", func(id, s string) world.Auth { return world.Auth{Mode: "raw", RawHeader: "Basic !!!not-base64!!!"} }},
 		{"malformed-basic-no-colon", func(id, s string) world.Auth {
@@ -98,6 +102,13 @@ func c10Decide(reg c10Reg, tr string, rel string, unknownClient bool) (int, stri
 	}
 	if !goodSecret {
 		return 0, "secret-" + rel
+	}
+	if tr == "basic-names-client+body-secret" {
+		if reg.Kind == "plain" {
+			return -1, "mixed-transport-plain-client"
+		}
+		// an OIDC client: neither the Basic transport (no secret in the header) nor the post transport (no client_id in the body) is complete
+		return 0, "mixed-transport-not-a-permitted-method"
 	}
 	if tr == "basic-unescaped" {
 		// the secret contains characters that change under form-urlencoding: an unescaped header carries a different secret
